@@ -42,6 +42,14 @@ impl Vm {
                         self.ip,
                         self.acc.clone(),
                     ));
+                    // The failed evaluation is abandoned: drop its frames and put the
+                    // registers back to their state at rest, so that the next evaluation
+                    // does not run on top of (and report a trace through) dead frames.
+                    *self.stack.get_sp_mut() = 0;
+                    self.stack.clear();
+                    self.bp = 0;
+                    self.ep = usize::MAX;
+                    self.acc = VCell::undefined();
                     return Err(e);
                 }
             }
